@@ -1,6 +1,7 @@
 SPECIFICATION Spec
 CONSTANTS
   Mode = "gen"
+  Lite = TRUE
   Returns = FALSE
   Groups = {1, 2, 3}
 CHECK_DEADLOCK FALSE
